@@ -332,11 +332,15 @@ class Interp:
                 return self.src.module(sub)
             raise SymRaise(ExcVal(ExtClass("builtins.AttributeError"), (name,)))
         if isinstance(obj, LibRef):
+            if name == "__name__":
+                return obj.path.split(".")[-1]
             p = obj.path + "." + name
             if p in ("numpy.nan", "numpy.NaN", "math.nan"):
                 return NAN
             return LibRef(p)
         if isinstance(obj, ExtClass):
+            if name == "__name__":
+                return obj.path.split(".")[-1]
             return LibRef(obj.path + "." + name)
         if isinstance(obj, AbstractObj):
             if name in obj.attrs:
@@ -395,6 +399,20 @@ class Interp:
         if isinstance(obj, AbstractObj):
             obj.attrs[name] = value
             self.ctx.writes.append((obj, name, value))
+            return
+        if isinstance(obj, SSeries) and name == "index" and isinstance(value, SArr) and value.ndim == 1:
+            # s.index = labels: same values, new labels; pandas rejects a different length
+            if not self.ctx.entails(Eq(value.len, obj.index.len)):
+                if self.ctx.branch(Not(Eq(value.len, obj.index.len)), "index-length-mismatch"):
+                    raise SymRaise(ExcVal(ExtClass("builtins.ValueError"), ()), where="Length mismatch")
+            if self.ctx.frozen and id(obj) in self.ctx.frozen:
+                self.ctx.mutated.append((obj, "index"))
+            obj.index = value
+            return
+        if isinstance(obj, Opaque) and getattr(obj, "setattr_ok", False):
+            if getattr(obj, "attrs", None) is None:
+                obj.attrs = {}
+            obj.attrs[name] = value
             return
         raise Undecided(f"setattr on {obj!r}")
 
